@@ -248,6 +248,7 @@ func (s *Store) Flush() error {
 	for _, name := range cnames {
 		c := coll[name]
 		rnls[name] = c.rootAddRef()
+		verifYield(3)
 	}
 	defer func() {
 		for _, name := range cnames {
@@ -258,6 +259,7 @@ func (s *Store) Flush() error {
 		if err := coll[name].write(rnls[name].root); err != nil {
 			return err
 		}
+		verifYield(3)
 	}
 	return s.writeRoots(rnls)
 }
